@@ -540,6 +540,7 @@ def decided_by(b, defs, dom, lookup_bb, target_bb):
         l = op_local(t["o"])
         if l is None or lookup_bb not in back_calls(b, defs, l):
             continue
-        if any(target_bb not in (reachable_from(b, s) | {s}) for s in succs(blk)):
+        # 'cannot reach the target' is meant within the same evaluation of the lookup: a later loop iteration passes the lookup again
+        if any(s != target_bb and target_bb not in reachable_from(b, s, stop={lookup_bb}) for s in succs(blk)):
             return True
     return False
